@@ -197,7 +197,7 @@ def check_r08c(repo, rep, uni):
                'limitIterators elements (or an endless generator) is '
                'materialised' % (model.norm(it), limit),
                loc=mod.loc(it), construct=model.norm(it))
-    rep.floor('finaliser iteration sources', n, 4)
+    rep.floor('finaliser iteration sources', n, 2)
     # every element / key / value drawn from a level is converted
     # recursively -- that recursion is what applies the limiter (and the
     # plain-data conversion) at every depth
@@ -692,6 +692,83 @@ def check_r08g(repo, rep):
            'before returning it', loc=ut.loc(lim.node))
 
 
+def _quota_by_evaluation(repo, ut, fi):
+    """limit_memory_usage applied abstractly to samples whose estimated
+    sizes are given: it raises exactly when the running total of count x
+    size exceeds the quota, measures every sample when it does not raise,
+    and does nothing for a quota <= 0.  None when the function is outside
+    the evaluator's fragment."""
+    from sa import absint
+    if not fi.node.args.vararg or len(fi.params()) != 1:
+        return None
+    scen = [  # (quota, [(count, size)...], raises?)
+        (25, [(1, 10), (1, 10), (1, 10)], True),
+        (30, [(1, 10), (1, 10), (1, 10)], False),
+        (25, [(1, 0), (1, 0), (1, 40)], True),
+        (25, [(1, 40), (1, 0), (1, 0)], True),
+        (25, [(1, 0), (1, 40), (1, 0)], True),
+        (25, [(3, 10)], True),
+        (35, [(3, 10)], False),
+        (25, [(1, 10), (2, 10)], True),
+        (0, [(1, 100)], False),
+        (-1, [(1, 100)], False),
+        (1, [], False),
+    ]
+    for quota, samples, raises in scen:
+        for as_engine in (False, True):
+            vals = [absint.Sym('value%d' % i) for i in range(len(samples))]
+            size = {v.name: sz for v, (c, sz) in zip(vals, samples)}
+            measured = []
+
+            def oracle(callee, args, kwargs):
+                if callee.endswith('getsizeof') and args:
+                    measured.append(args[0])
+                    if isinstance(args[0], absint.Sym) and \
+                            args[0].name in size:
+                        return (size[args[0].name],)
+                    return (0,)
+                if callee == '.get' and len(args) >= 2 and \
+                        args[1] == 'yaql.memoryQuota':
+                    return (quota,)
+                return None
+
+            def inst(value, cls_expr):
+                names = [model.norm(x).rsplit('.', 1)[-1] for x in (
+                    cls_expr.elts if isinstance(cls_expr, ast.Tuple)
+                    else [cls_expr])]
+                if isinstance(value, bool):
+                    return 'bool' in names or 'int' in names
+                if isinstance(value, int):
+                    return 'int' in names
+                return False
+            first = absint.Obj('engine', options=absint.Sym('options')) \
+                if as_engine else quota
+            args = {0: first}
+            for i, ((c, sz), v) in enumerate(zip(samples, vals)):
+                args[i + 1] = (c, v)
+            try:
+                out = absint.Interp(repo, ut, oracle, inst).run(
+                    fi.node, args)
+            except (absint.Unsupported, RecursionError):
+                return None
+            except absint._Raise:
+                out = ('raise', None)
+            what = 'quota %d (%s), samples count x size %s' % (
+                quota, 'from the engine' if as_engine else 'given',
+                samples)
+            if raises and out[0] != 'raise':
+                return False, 'with %s the running total exceeds the ' \
+                    'quota but no error is raised' % what
+            if not raises and out[0] == 'raise':
+                return False, 'with %s the total stays within the quota ' \
+                    'but an error is raised' % what
+            if not raises and quota > 0 and len(
+                    {id(m) for m in measured}) < len(samples):
+                return False, 'with %s only %d of %d samples are ' \
+                    'estimated' % (what, len(measured), len(samples))
+    return True, ''
+
+
 def check_quota_measures_everything(repo, rep):
     """R08h: utils.limit_memory_usage measures every sample it is given:
     inside its loop over the samples neither the size estimate nor the
@@ -726,6 +803,9 @@ def check_quota_measures_everything(repo, rep):
             why = 'the quota error depends on more than the comparison ' \
                   'with the quota (%s)' % '; '.join(
                       model.norm(e) for e, p in inner)
+    verdict = _quota_by_evaluation(repo, ut, fi)
+    if verdict is not None:
+        ok, why = verdict
     rep.ob('R08h', fi.key + '/measures-every-sample', ok,
            'limit_memory_usage must estimate and compare every sample: %s '
            '-- values of that kind are never charged against '
@@ -785,6 +865,24 @@ GROWERS = ('append', 'add', 'extend', 'update', 'setdefault', 'insert',
            'appendleft', 'extendleft')
 
 
+def _grows_own_state(m):
+    """Does the method add to a container held on self?"""
+    slf = m.params()[0] if m.params() else None
+    for x in ast.walk(m.node):
+        b = None
+        if isinstance(x, ast.Call) and isinstance(
+                x.func, ast.Attribute) and x.func.attr in GROWERS:
+            b = x.func.value
+        elif isinstance(x, ast.Assign):
+            for t in x.targets:
+                if isinstance(t, ast.Subscript):
+                    b = t.value
+        if isinstance(b, ast.Attribute) and isinstance(
+                b.value, ast.Name) and b.value.id == slf:
+            return True
+    return False
+
+
 def check_accumulating_loops(repo, rep, uni):
     """R08j: with only yaql.memoryQuota set a collection argument is not
     bounded in length; a loop over it that grows a local container is bounded
@@ -822,6 +920,18 @@ def check_accumulating_loops(repo, rep, uni):
                             b = t.value
                 if isinstance(b, ast.Name) and b.id not in sources:
                     grown.setdefault(b.id, x)
+                # builder.put(k, v): a method of a repository class that
+                # grows a container the object holds
+                if isinstance(x, ast.Call) and isinstance(
+                        x.func, ast.Attribute) and isinstance(
+                        x.func.value, ast.Name) and \
+                        x.func.attr not in GROWERS and \
+                        x.func.value.id not in sources:
+                    ci = _repo_class_of_local(repo, fi, x.func.value.id)
+                    m = ci.methods.get(x.func.attr) if ci is not None \
+                        else None
+                    if m is not None and _grows_own_state(m):
+                        grown.setdefault(x.func.value.id, x)
             shrunk = set()
             for x in ast.walk(loop):
                 if isinstance(x, ast.Call) and isinstance(
